@@ -70,6 +70,70 @@ def fixpoint_rule(rep, F):
     rep.floor("success returns of calculate_ada", 2, n)
 
 
+def minada_addr_rule(rep, F):
+    """a function that hands out a priced output prices the output's real address, not the 57-byte placeholder of new_empty"""
+    import hirq as H
+    rep.rule("MINADA-addr", "a function that returns an output / amount priced with MinOutputAdaCalculator::new_empty (whose output carries a 57-byte placeholder address) replaces the placeholder by the real address (set_address) on every calculator before calculate_ada; functions returning only a decision (bool) or asset groups hand their outputs to add_output, whose gate prices the real output (GATE-output)")
+    n = 0
+    for fid, h in F.hir.items():
+        if "/tests/" in h["file"]:
+            continue
+        calcs = []   # one record per `let x = new_empty(..)`
+
+        def scan(node, cur):
+            if not H.is_node(node):
+                return
+            k = node[0]
+            if k == "closure":
+                scan(node[4], dict(cur))
+                return
+            if k == "block":
+                cur = dict(cur)
+                for st in node[2]:
+                    if st[0] == "let":
+                        init = st[3]
+                        if init is not None:
+                            scan(init, cur)
+                            if any(x[0] == "call" and (x[2] or "").endswith("MinOutputAdaCalculator::new_empty") for x in H.walk(init)):
+                                names = H.pat_bindings(st[2])
+                                if len(names) == 1:
+                                    calcs.append({"addr": False, "used": False})
+                                    cur[list(names)[0]] = len(calcs) - 1
+                                else:
+                                    calcs.append({"addr": False, "used": True, "anon": True})
+                        if st[4] is not None:
+                            scan(st[4], cur)
+                    else:
+                        scan(st[2], cur)
+                if node[3] is not None:
+                    scan(node[3], cur)
+                return
+            if k == "mcall" and node[2] in ("set_address", "calculate_ada"):
+                r = H.path_str(H.strip(node[4]))
+                if r in cur:
+                    if node[2] == "set_address":
+                        if not calcs[cur[r]]["used"]:
+                            calcs[cur[r]]["addr"] = True
+                    else:
+                        calcs[cur[r]]["used"] = True
+            for c in H.children(node):
+                scan(c, cur)
+
+        if not any(x[0] == "call" and (x[2] or "").endswith("MinOutputAdaCalculator::new_empty") for x in H.walk(h["body"])):
+            continue
+        scan(h["body"], {})
+        n += 1
+        rep.inst("MINADA-addr")
+        ret = h.get("ret") or ""
+        hands_out = any(t in ret for t in ("TransactionOutput", "BigNum", "Coin", "Value")) and "MultiAsset>" not in ret
+        if not hands_out:
+            continue
+        bad = [c for c in calcs if not c["addr"]]
+        if bad:
+            rep.violation("MINADA-addr", F.key(fid), "%s returns `%s` priced by %d MinOutputAdaCalculator::new_empty calculator(s) that keep the 57-byte placeholder address: for a longer address (76-byte Byron address) the coin it sets is below coins_per_byte x (160 + real size) - 1 133 530 instead of 1 215 420 at 4310/byte -, for a shorter one it exceeds the bound at the widest coin encoding" % (F.key(fid), ret.replace("std::result::", ""), len(bad)), {})
+    rep.floor("functions pricing the placeholder output of new_empty", 4, n)
+
+
 def check(rep, F, tier, replay=None):
     # ---- GATE-output --------------------------------------------------------------------------
     rep.rule("GATE-output", "TransactionOutputs::add in add_output is dominated by the passing edges of the value-size and min-ADA comparisons")
@@ -233,6 +297,7 @@ def check(rep, F, tier, replay=None):
         if not checked:
             rep.violation("COLRET-gate", key_, "%s stores a collateral return output without any min-ADA computation: set_collateral_return(1 lovelace to a base address) is accepted and build_tx() returns a body whose collateral return is below the minimum (add_output rejects the same output)" % key_, {})
     rep.floor("functions storing TransactionBuilder.collateral_return", 3, n_cr)
+    minada_addr_rule(rep, F)
     return rep.finish(
         EXPLANATION,
         ["min_ada_for_output's numeric bound (fixed point over the coin width) is not decided statically", "collateral return gates are C19's rules"],
